@@ -573,7 +573,7 @@ TRUSTED = {
 }
 
 NOT_APPLICABLE = {
-    "C01": "point-in-returned-cell is a statement about f64 projection + point-in-pentagon code (sin/cos/atan2); Verus has no float semantics and CBMC over-approximates libm, so neither a contract proof nor a bounded check is sound",
+    "C01": "point-in-returned-cell is a statement about f64 projection + point-in-pentagon code (sin/cos/atan2); Verus has no float semantics and CBMC over-approximates libm, so neither a contract proof nor a symbolic bounded check is sound; a purely sampled test would be a different technique family. What is provable about lonlat_to_cell (Err / canonical ID of the requested resolution, no integer-layer panic) is claimed under C14",
     "C02": "cell -> centre -> cell crosses the inverse and forward f64 projections; same reason as C01",
     "C03": "disjointness/cover of pentagons on the sphere is a real-geometry theorem about irrational vertex coordinates and the projection; no contract on the code expresses it without float semantics",
     "C12": "child/parent polygon overlap and centre distance: f64 geometry, out of reach of both back ends",
